@@ -1,2 +1,242 @@
-//! Harnesses for property C38 (see /verif/properties.jsonl).
+//! C38 ntp-ctl reads exactly what the daemon publishes: framing cap and the f64 layer of durations.
+//!
+//! `read_json` is an `async fn` over `tokio::io::AsyncRead`; the in-memory readers here are always
+//! ready, so the future completes at the first poll with a no-op waker.
 use crate::stubs;
+use ntp_proto::NtpDuration;
+use ntp_proto::verif::time_types as th;
+use ntpd::verif::daemon::sockets as h;
+use std::future::Future;
+use std::pin::{Pin, pin};
+use std::task::{Context, Poll, Waker};
+use tokio::io::{AsyncRead, ReadBuf};
+
+pub fn block_on_ready<F: Future>(fut: F) -> F::Output {
+    let mut fut = pin!(fut);
+    let mut cx = Context::from_waker(Waker::noop());
+    match fut.as_mut().poll(&mut cx) {
+        Poll::Ready(v) => v,
+        Poll::Pending => panic!("in-memory future was not ready at the first poll"),
+    }
+}
+
+/// Counting reader: an 8-byte length prefix followed by an endless payload of a repeated byte.
+/// Counts the bytes handed out and the number of reads that touched the payload.
+pub struct Counting {
+    pub prefix: [u8; 8],
+    pub fill: u8,
+    pub consumed: usize,
+    pub payload_reads: usize,
+}
+impl AsyncRead for Counting {
+    fn poll_read(mut self: Pin<&mut Self>, _cx: &mut Context<'_>, buf: &mut ReadBuf<'_>) -> Poll<std::io::Result<()>> {
+        if self.consumed < 8 {
+            let n = std::cmp::min(8 - self.consumed, buf.remaining());
+            let p = self.consumed;
+            buf.put_slice(&self.prefix[p..p + n]);
+            self.consumed += n;
+        } else {
+            self.payload_reads += 1;
+            // deliver at most 4 bytes per read (keeps copies small)
+            let n = std::cmp::min(4, buf.remaining());
+            let fill = [self.fill; 4];
+            buf.put_slice(&fill[..n]);
+            self.consumed += n;
+        }
+        Poll::Ready(Ok(()))
+    }
+}
+
+const MIB: u64 = 1 << 20;
+
+/// Every announced length above 1 MiB (up to u64::MAX): rejected after exactly the 8 prefix bytes,
+/// without a single read of the payload and without growing the caller's buffer.
+#[kani::proof]
+#[kani::unwind(6)]
+#[kani::stub(serde_json::from_slice, from_slice_stub)]
+fn c38_cap() {
+    let len: u64 = kani::any();
+    let fill: u8 = kani::any();
+    kani::assume(len > MIB);
+    let mut rd = Counting { prefix: len.to_be_bytes(), fill, consumed: 0, payload_reads: 0 };
+    let mut buffer: Vec<u8> = Vec::new();
+    let res: std::io::Result<u8> = block_on_ready(h::read_json(&mut rd, &mut buffer));
+    assert!(res.is_err(), "a message announcing more than 1 MiB must be rejected");
+    // (dropping an `io::Error` walks the drop glue of every `dyn Error` in the program)
+    std::mem::forget(res);
+    assert!(rd.consumed == 8, "exactly the length prefix is consumed");
+    assert!(rd.payload_reads == 0, "no payload is read");
+    assert!(buffer.is_empty() && buffer.capacity() == 0, "no buffer is allocated for an oversized message");
+    kani::cover!(len == MIB + 1, "smallest oversized length");
+    kani::cover!(len == u64::MAX, "largest length");
+    kani::cover!(len > u32::MAX as u64, "length beyond 32 bits");
+}
+
+/// Small announced lengths (1..=4) are not rejected at the prefix: the payload is read in full.
+/// (Lengths between 5 and 1 MiB make `Vec::resize` loop up to 2^20 times: outside.)
+#[kani::proof]
+#[kani::unwind(6)]
+#[kani::stub(serde_json::from_slice, from_slice_stub)]
+fn c38_small() {
+    let len: u64 = kani::any();
+    let fill: u8 = kani::any();
+    kani::assume(len >= 1 && len <= 4);
+    let mut rd = Counting { prefix: len.to_be_bytes(), fill, consumed: 0, payload_reads: 0 };
+    let mut buffer: Vec<u8> = Vec::new();
+    let res: std::io::Result<u8> = block_on_ready(h::read_json(&mut rd, &mut buffer));
+    std::mem::forget(res);
+    assert!(rd.consumed == 8 + len as usize, "prefix and exactly the announced payload are consumed");
+    assert!(buffer.len() == len as usize, "buffer holds the payload");
+    assert!(buffer[0] == fill && buffer[len as usize - 1] == fill, "payload bytes delivered");
+    kani::cover!(len == 4, "four byte payload");
+}
+
+/// serde_json's text parser is outside the claim (DESIGN C38): replaced by "always a syntax
+/// error" so that only the framing is exercised.
+pub fn from_slice_stub<'a, T: serde::Deserialize<'a>>(_v: &'a [u8]) -> serde_json::Result<T> {
+    Err(<serde_json::Error as serde::de::Error>::custom("stub"))
+}
+
+// ------------------------------------------------------------------------------------------
+// Duration (de)serialisation through the f64 layer.
+
+/// Serializer that accepts exactly one f64 and captures it.
+pub struct CaptureF64;
+#[derive(Debug)]
+pub struct NotF64;
+impl std::fmt::Display for NotF64 {
+    fn fmt(&self, f: &mut std::fmt::Formatter<'_>) -> std::fmt::Result {
+        f.write_str("not an f64")
+    }
+}
+impl std::error::Error for NotF64 {}
+impl serde::ser::Error for NotF64 {
+    fn custom<T: std::fmt::Display>(_msg: T) -> Self {
+        NotF64
+    }
+}
+impl serde::de::Error for NotF64 {
+    fn custom<T: std::fmt::Display>(_msg: T) -> Self {
+        NotF64
+    }
+}
+macro_rules! reject {
+    ($($name:ident($ty:ty)),*) => { $(fn $name(self, _v: $ty) -> Result<f64, NotF64> { Err(NotF64) })* };
+}
+impl serde::Serializer for CaptureF64 {
+    type Ok = f64;
+    type Error = NotF64;
+    type SerializeSeq = serde::ser::Impossible<f64, NotF64>;
+    type SerializeTuple = serde::ser::Impossible<f64, NotF64>;
+    type SerializeTupleStruct = serde::ser::Impossible<f64, NotF64>;
+    type SerializeTupleVariant = serde::ser::Impossible<f64, NotF64>;
+    type SerializeMap = serde::ser::Impossible<f64, NotF64>;
+    type SerializeStruct = serde::ser::Impossible<f64, NotF64>;
+    type SerializeStructVariant = serde::ser::Impossible<f64, NotF64>;
+    fn serialize_f64(self, v: f64) -> Result<f64, NotF64> {
+        Ok(v)
+    }
+    reject!(serialize_bool(bool), serialize_i8(i8), serialize_i16(i16), serialize_i32(i32), serialize_i64(i64),
+            serialize_u8(u8), serialize_u16(u16), serialize_u32(u32), serialize_u64(u64), serialize_f32(f32),
+            serialize_char(char), serialize_str(&str), serialize_bytes(&[u8]));
+    fn serialize_none(self) -> Result<f64, NotF64> {
+        Err(NotF64)
+    }
+    fn serialize_some<T: ?Sized + serde::Serialize>(self, _v: &T) -> Result<f64, NotF64> {
+        Err(NotF64)
+    }
+    fn serialize_unit(self) -> Result<f64, NotF64> {
+        Err(NotF64)
+    }
+    fn serialize_unit_struct(self, _n: &'static str) -> Result<f64, NotF64> {
+        Err(NotF64)
+    }
+    fn serialize_unit_variant(self, _n: &'static str, _i: u32, _v: &'static str) -> Result<f64, NotF64> {
+        Err(NotF64)
+    }
+    fn serialize_newtype_struct<T: ?Sized + serde::Serialize>(self, _n: &'static str, _v: &T) -> Result<f64, NotF64> {
+        Err(NotF64)
+    }
+    fn serialize_newtype_variant<T: ?Sized + serde::Serialize>(self, _n: &'static str, _i: u32, _v: &'static str, _t: &T) -> Result<f64, NotF64> {
+        Err(NotF64)
+    }
+    fn serialize_seq(self, _l: Option<usize>) -> Result<Self::SerializeSeq, NotF64> {
+        Err(NotF64)
+    }
+    fn serialize_tuple(self, _l: usize) -> Result<Self::SerializeTuple, NotF64> {
+        Err(NotF64)
+    }
+    fn serialize_tuple_struct(self, _n: &'static str, _l: usize) -> Result<Self::SerializeTupleStruct, NotF64> {
+        Err(NotF64)
+    }
+    fn serialize_tuple_variant(self, _n: &'static str, _i: u32, _v: &'static str, _l: usize) -> Result<Self::SerializeTupleVariant, NotF64> {
+        Err(NotF64)
+    }
+    fn serialize_map(self, _l: Option<usize>) -> Result<Self::SerializeMap, NotF64> {
+        Err(NotF64)
+    }
+    fn serialize_struct(self, _n: &'static str, _l: usize) -> Result<Self::SerializeStruct, NotF64> {
+        Err(NotF64)
+    }
+    fn serialize_struct_variant(self, _n: &'static str, _i: u32, _v: &'static str, _l: usize) -> Result<Self::SerializeStructVariant, NotF64> {
+        Err(NotF64)
+    }
+}
+
+fn roundtrip(raw: i64) -> (f64, i64) {
+    use serde::{Deserialize, Serialize};
+    let d = th::dur_from_raw(raw);
+    let secs = d.serialize(CaptureF64).expect("a duration serialises as one f64");
+    let back = NtpDuration::deserialize(serde::de::value::F64Deserializer::<NotF64>::new(secs));
+    match back {
+        Ok(b) => (secs, th::dur_raw(b)),
+        Err(_) => {
+            assert!(false, "the f64 a duration serialises to is rejected on the way back");
+            (secs, 0)
+        }
+    }
+}
+
+fn within_bound(raw: i64, back: i64) -> bool {
+    // |back - raw| <= 1e-9 * |raw| + 1 unit, evaluated in i128 (raw / 10^9 rounded up)
+    let diff = (back as i128 - raw as i128).abs();
+    let mag = (raw as i128).abs();
+    diff <= (mag + 999_999_999) / 1_000_000_000 + 1
+}
+
+/// Every duration: the published f64 is finite, keeps the sign, and reads back within
+/// 1e-9 * |d| + one 2^-32 s unit.
+#[kani::proof]
+fn c38_dur() {
+    let raw: i64 = kani::any();
+    let (secs, back) = roundtrip(raw);
+    assert!(secs.is_finite(), "published seconds are finite");
+    assert!((secs < 0.0) == (raw < 0) && (secs == 0.0) == (raw == 0), "sign of the published value");
+    assert!(within_bound(raw, back), "duration read back within one part per billion plus one unit");
+    kani::cover!(back != raw, "round trip is not always exact");
+    kani::cover!(raw == i64::MAX, "largest duration");
+    kani::cover!(raw == i64::MIN, "smallest duration");
+}
+
+/// Restricted variant (|d| < 2^52 units = 2^20 s, exactly representable in f64).
+#[kani::proof]
+fn c38_dur_small() {
+    let raw: i64 = kani::any();
+    kani::assume(raw > -(1i64 << 52) && raw < (1i64 << 52));
+    let (secs, back) = roundtrip(raw);
+    assert!(secs.is_finite(), "published seconds are finite");
+    assert!((secs < 0.0) == (raw < 0) && (secs == 0.0) == (raw == 0), "sign of the published value");
+    assert!(within_bound(raw, back), "duration read back within one part per billion plus one unit");
+    kani::cover!(back != raw, "round trip is not always exact");
+}
+
+/// Sign / finiteness clauses only (no bound on the error): every duration.
+#[kani::proof]
+fn c38_dur_sign() {
+    let raw: i64 = kani::any();
+    let (secs, back) = roundtrip(raw);
+    assert!(secs.is_finite(), "published seconds are finite");
+    assert!((secs < 0.0) == (raw < 0) && (secs == 0.0) == (raw == 0), "sign of the published value");
+    assert!((back < 0) == (raw < 0) || back == 0 || raw == 0, "sign survives the round trip");
+    kani::cover!(raw == i64::MIN, "smallest duration");
+}
